@@ -1,5 +1,6 @@
 """C16 — gconfig: env templates resolve exactly and only on selected branches."""
 import json
+import os
 
 import gconf_lib as gl
 import vlib
@@ -16,7 +17,7 @@ META = {
 
 TRUSTED = [
     "Coq 8.16.1 kernel and VM (vm_compute); no axioms",
-    "Go's regexp (RE2, leftmost-first submatches) on `^\\$\\{\\{\\s*env:\\s*(\\w+)\\s*\\|?\\s*(.*\\S)?\\s*\\}\\}$` behaves as TmplModel.match_env: validated on every generated string, not proved",
+    "Go's regexp engine decides membership in the pattern's language as the textbook matching relation TmplReModel.matches does and reports leftmost-first submatches as TmplModel.match_env returns them (maximal name, trimmed default): validated on every generated string, not proved; the pattern itself is read from the source by the translator harness/cmd/xlate_tmplre (go/parser + regexp/syntax) and tied by reflexivity",
     "hand-written models coq/theories/TmplModel.v (yaml_templates.go) and GConfModel.v (builder.go), tied by correspondence only",
     "gopkg.in/yaml.v3 round trip of the generated documents (checked per case); os.LookupEnv (the environment is recorded per case)",
     "Go harness harness/cmd/c16 (generator with by-construction expectation), Go 1.23 toolchain",
@@ -83,6 +84,7 @@ def run(ctx):
     binp = gl.build(ctx, "c16", judge="TmplJudge")
     if not binp:
         return
+    tie = translator_tie(ctx)
     quick = ctx.tier == "quick"
     runs = [("corpus", ["-mode", "corpus"]),
             ("matcher", ["-mode", "matcher", "-n", 400 if quick else 20000]),
@@ -149,6 +151,38 @@ def run(ctx):
     })
     ctx.log("correspondence: %d cases (%d non-trivial), %d lookups, %d template-like strings, %d disagreement(s), %d out-of-domain difference(s)" % (
         len(jsons), nt, ctx.cov["lookups_compared"], len(set(tmpl)), ctx.cov["disagreements"], info))
+
+
+def translator_tie(ctx):
+    """(T) regenerate the pattern term from yaml_templates.go of the current tree and compile
+    `gen_pattern = hand_pattern`.  A broken tie is reported (the correspondence run that follows
+    looks for a failing input)."""
+    xb, log = ctx.build_harness("xlate_tmplre")
+    if not xb:
+        ctx.report({"unchecked": "build of the translator xlate_tmplre", "detail": log[-2000:]},
+                   {"kind": "build"}, failing_input=False)
+        return False
+    src = os.path.join(ctx.copy_repo(), "gconfig", "yaml_templates.go")
+    gen = os.path.join(ctx.gen, "TmplReGen_src.v")
+    rc, out = vlib.sh([xb, "-src", src, "-out", gen], timeout=60)
+    if rc != 0:
+        ctx.report({"unchecked": "translator tie: the env-template pattern could not be read from "
+                                 "gconfig/yaml_templates.go", "detail": out[-2000:]},
+                   {"kind": "translator"}, failing_input=False)
+        return False
+    text = open(gen).read() + (
+        "Lemma tie_anchored : gen_anchored = true.\nProof. reflexivity. Qed.\n"
+        "Lemma tie_pattern : gen_pattern = hand_pattern.\nProof. reflexivity. Qed.\n")
+    rc, out = ctx.coq_eval("TmplReTie", text, timeout=120)
+    ctx.cov["translator_tie"] = "gen_pattern = hand_pattern: " + ("OK" if rc == 0 else "BROKEN")
+    if rc != 0:
+        ctx.report({"unchecked": "translator tie gen_pattern = hand_pattern (the regular expression in "
+                                 "gconfig/yaml_templates.go is no longer the one the theorems are about)",
+                    "generated": open(gen).read()[-1500:], "detail": out[-1500:]},
+                   {"kind": "translator_tie"}, failing_input=False)
+        return False
+    ctx.log("translator tie: pattern of yaml_templates.go = hand_pattern")
+    return True
 
 
 def replay(ctx, path):
